@@ -220,6 +220,8 @@ def run_kani_batched(ov, filters, jobs, harness_timeout, total_timeout, extra, j
     # the clean_up harnesses (c10*) need ~5 GB of CBMC memory each: they get batches of their own, 6 at a time
     heavy = [n for n in names if n.startswith("c10")]
     light = [n for n in names if not n.startswith("c10")]
+    if len(heavy) <= 3:
+        light, heavy = heavy + light, []  # a few of them fit next to the others (and start first)
     parts = []
     if light:
         nb = (len(light) + batch - 1) // batch
